@@ -22,6 +22,7 @@ type Engine struct {
 	Funcs    map[string]*ssa.Function // full name -> function (pkgpath.RelString)
 	AllFuncs []*ssa.Function
 	eventSigs map[string]*eventSig
+	closable  map[string]bool // channels closed somewhere in the program
 	ForceSafety bool // prove panic-freedom in every unit (property-level option)
 	wantSpawn bool // eventsFor matches 'go' events instead of call/ret events
 	fieldTargets    map[string][]*ssa.Function
